@@ -25,6 +25,7 @@ import (
 
 	"github.com/lindb/common/models"
 
+	errorpkg "github.com/lindb/lindb/pkg/error"
 	stagepkg "github.com/lindb/lindb/query/stage"
 	trackerpkg "github.com/lindb/lindb/query/tracker"
 )
@@ -115,7 +116,13 @@ func (sm *pipelineStateMachine) completeStage(stageID string, err error) {
 		s.stats.ErrMsg = errMsg
 		s.stats.Async = s.stage.IsAsync()
 
-		s.stage.Complete()
+		if hookErr := safeComplete(s.stage); hookErr != nil && sm.err == nil {
+			// a panicking Complete() hook (e.g. the group-by tag value collect of the last grouping task)
+			// must not unwind between Lock and Unlock: the mutex would stay locked, every later
+			// completeStage (including the one of the pool's panic handler) would block forever and the
+			// pipeline would never complete. Report the panic as a failure of the pipeline instead.
+			sm.err = hookErr
+		}
 	}
 	sm.mutex.Unlock()
 
@@ -123,6 +130,17 @@ func (sm *pipelineStateMachine) completeStage(stageID string, err error) {
 		// check if all stages execute completed, report the first failure of any stage
 		sm.complete(sm.firstError())
 	}
+}
+
+// safeComplete runs the stage's Complete() hook, a panic of the hook is returned as an error.
+func safeComplete(stage stagepkg.Stage) (err error) {
+	defer func() {
+		if r := recover(); r != nil {
+			err = errorpkg.Error(r)
+		}
+	}()
+	stage.Complete()
+	return nil
 }
 
 // firstError returns the first error reported by a stage, nil if no stage failed.
